@@ -292,6 +292,12 @@ func H_C14_multi() {
 	vAssert((en1 == nil) == (en2 == nil), "second-execute-same-error")
 	if en1 == nil && en2 == nil {
 		vSameResults(n1, n2, "second-execute-same-result-node-query")
+		// a node query is the query with that node's stored vector: scored against the reconstructions, not from the node's code
+		if e := u.m.find(5); e != nil {
+			rq, eq := u.idx.NewSearch().WithQuery(vCopy(e.vec)).WithK(5).Execute()
+			vAssert(eq == nil, "search-ok")
+			vSameResults(n1, rq, "node-query-equals-query-with-the-stored-vector")
+		}
 	}
 	// the same search object once more after the index has grown past what it held at the first Execute
 	if vChoose("grow", 2) == 1 {
@@ -313,6 +319,66 @@ func H_C14_multi() {
 			if r.GetId() == e.id {
 				vAssertIsMax(r.Score, []float32{d1, d2}, "batch-max")
 			}
+		}
+	}
+	vCover("ran")
+}
+
+func init() { vHarnesses["H_C14_update"] = H_C14_update }
+
+// histories: a stored vector is removed and added again under the same id, with content that lies in the same or in
+// the other coarse cluster, with or without a Flush in between, another removal possibly pending; afterwards the
+// answer is the exact top-k by reconstruction distance over the live vectors (all clusters / the nearest cluster)
+func H_C14_update() {
+	ivf := vChoose("ivfpq", 2) == 1
+	kind := vKPQ
+	nlist := 1
+	if ivf {
+		kind, nlist = vKIVFPQ, 2
+	}
+	vPQM, vPQNbits, vPQConcreteCB = 2, 1, true
+	u := vMakeIndexC(kind, L2Squared, 2, nlist, false) // centroids (0,1) and (4,3)
+	vAddBoth(u.idx, u.m, 5, []float32{0.5, 1.25})
+	vAddBoth(u.idx, u.m, 3, []float32{3.5, 2.75})
+	vAddBoth(u.idx, u.m, 9, []float32{-0.5, 0.5})
+	if vChoose("other_removal_pending", 2) == 1 {
+		vRemoveBoth(u.idx, u.m, 9)
+	}
+	vRemoveBoth(u.idx, u.m, 5)
+	if vChoose("flush_between", 2) == 1 {
+		vFlushBoth(u.idx, u.m)
+	}
+	vAddBoth(u.idx, u.m, 5, vCopy([][]float32{{0.25, 0.75}, {4.5, 3.25}}[vChoose("new_content_in_cluster", 2)]))
+	q := []float32{vF32("qx"), 2}
+	vAssume(vAnd(q[0] >= -16, q[0] <= 16))
+	k := vInt("k")
+	for pass := 0; pass < 2; pass++ {
+		res, err := u.idx.NewSearch().WithQuery(vCopy(q)).WithK(k).WithNProbes(0).Execute()
+		vAssert(err == nil, "search-ok")
+		vCheckExact(res, u.m.eligible(q, 0, nil), k)
+		if ivf {
+			// one probe: the cluster whose centroid is strictly nearer
+			idx := u.ivfpq
+			d0 := u.m.dist.Calculate(q, idx.centroids[0])
+			d1 := u.m.dist.Calculate(q, idx.centroids[1])
+			vAssume(d0 != d1)
+			probe := 0
+			if d1 < d0 {
+				probe = 1
+			}
+			var sub vRef
+			sub.dist, sub.scoreFn = u.m.dist, u.m.scoreFn
+			for _, cv := range idx.lists[probe] {
+				if e := u.m.find(cv.Node.ID()); e != nil && e.live {
+					sub.entries = append(sub.entries, *e)
+				}
+			}
+			r1, e1 := u.idx.NewSearch().WithQuery(vCopy(q)).WithK(k).WithNProbes(1).Execute()
+			vAssert(e1 == nil, "search-ok")
+			vCheckExact(r1, sub.eligible(q, 0, nil), k)
+		}
+		if pass == 0 {
+			vFlushBoth(u.idx, u.m)
 		}
 	}
 	vCover("ran")
